@@ -91,9 +91,13 @@ class Canonicalizer:
                 simplify=True,
             )
         elif isinstance(expression, Product):
-            # note: safe already sorts
+            # note: safe already sorts. A factor might itself become a product
+            # after canonicalization (e.g., a fraction whose denominator is one),
+            # so flatten again before sorting.
             return Product.safe(
-                self.canonicalize(subexpr) for subexpr in _flatten_product(expression)
+                _flatten_expressions(
+                    self.canonicalize(subexpr) for subexpr in _flatten_product(expression)
+                )
             )
         elif isinstance(expression, Fraction):
             numerator = self.canonicalize(expression.numerator)
@@ -111,7 +115,11 @@ class Canonicalizer:
 
 
 def _flatten_product(product: Product) -> Iterable[Expression]:
-    for expression in product.expressions:
+    yield from _flatten_expressions(product.expressions)
+
+
+def _flatten_expressions(expressions: Iterable[Expression]) -> Iterable[Expression]:
+    for expression in expressions:
         if isinstance(expression, Product):
             yield from _flatten_product(expression)
         else:
